@@ -5,11 +5,25 @@ use serde_json::Value;
 use std::sync::Arc;
 
 pub mod c01;
+pub mod c02;
+pub mod c03;
+pub mod c04;
+pub mod c05;
+pub mod c06;
+pub mod c17;
+pub mod c18;
 pub mod common;
 
 pub fn run(cfg: &Cfg) -> i32 {
     match cfg.id.as_str() {
         "C01" => c01::run(cfg),
+        "C02" => c02::run(cfg),
+        "C03" => c03::run(cfg),
+        "C04" => c04::run(cfg),
+        "C05" => c05::run(cfg),
+        "C06" => c06::run(cfg),
+        "C17" => c17::run(cfg),
+        "C18" => c18::run(cfg),
         other => {
             eprintln!("INCONCLUSIVE unknown property {}", other);
             2
@@ -20,6 +34,13 @@ pub fn run(cfg: &Cfg) -> i32 {
 pub fn replay_case(prop: &str, ctx: &mut Ctx, case: &Value) -> Result<(), Violation> {
     match prop {
         "C01" => c01::replay(ctx, case),
+        "C02" => c02::replay(ctx, case),
+        "C03" => c03::replay(ctx, case),
+        "C04" => c04::replay(ctx, case),
+        "C05" => c05::replay(ctx, case),
+        "C06" => c06::replay(ctx, case),
+        "C17" => c17::replay(ctx, case),
+        "C18" => c18::replay(ctx, case),
         _ => Err(ctx.violation("INFRA", format!("unknown property {}", prop), Value::Null)),
     }
 }
